@@ -10,6 +10,7 @@
 //           10 tuple<>  11 bind_front shapes  12 inplace_function shapes  13 function_ref shapes
 //           14 reference_wrapper shapes  15 pair with reference members  16 invoke shapes  17 not_fn shapes
 //           18 tuple construction shapes  19 further tuple-like sources / reference tuples
+//           20 swap through the element type's own (ADL) swap
 // element kinds: 0 int  1 int const  2 move-only  3 copy-only  4 int&  5 int&&  6 int const&
 #include "vf.hpp"
 #include "vf_contract.hpp"
@@ -1064,6 +1065,7 @@ void probe()
 }
 
 // ============================================================================================ 19 further tuple-like sources / reference tuples
+//           20 swap through the element type's own (ADL) swap
 #elif VF_PROBE == 19
 constexpr char const* PNAME = "tuple-like-sources";
 void probe()
@@ -1144,6 +1146,107 @@ void probe()
     vf::eq_bool("source-moved-from", etl::get<0>(ec).moved_from, std::get<0>(sc).moved_from);
     vf::eq_bool("untouched-not-moved-from", etl::get<3>(ec).moved_from, std::get<3>(sc).moved_from);
     cover("apply(f,t&&)");
+    #endif
+}
+
+// ============================================================================================ 20 swap through the element type's own (ADL) swap
+#elif VF_PROBE == 20
+constexpr char const* PNAME = "adl-swap-shapes";
+int fa(int x) { return x + 1; }
+int fb(int x) { return x + 2; }
+void probe()
+{
+    using c20adl::NoMove;
+    auto& cnt = c20adl::counters();
+    #if VF_KIND == 0
+    g_subject = "pair<NoMove,int>";
+    for (int a = 0; a < 3; ++a) {
+        for (int b = 0; b < 3; ++b) {
+            etl::pair<NoMove, int> e1(a, 10), e2(b, 20);
+            std::pair<NoMove, int> s1(a, 10), s2(b, 20);
+            crumb("swap(pair&)", "element-swappable-only-through-its-own-swap");
+            cnt.clear();
+            s1.swap(s2);
+            int sc = cnt.swaps;
+            cnt.clear();
+            e1.swap(e2);
+            vf::eq_int("element-swap-calls", cnt.swaps, sc);
+            vf::eq_int("lhs.first", e1.first.payload, s1.first.payload);
+            vf::eq_int("rhs.first", e2.first.payload, s2.first.payload);
+            vf::eq_int("lhs.second", e1.second, s1.second);
+            vf::eq_int("lhs.first.marks", e1.first.marks, s1.first.marks);
+            cover("pair<NoMove,int>.swap");
+            crumb("swap(a,b)", "element-swappable-only-through-its-own-swap");
+            cnt.clear();
+            swap(s1, s2);
+            sc = cnt.swaps;
+            cnt.clear();
+            swap(e1, e2); // ADL
+            vf::eq_int("element-swap-calls", cnt.swaps, sc);
+            vf::eq_int("lhs.first", e1.first.payload, s1.first.payload);
+            vf::eq_int("rhs.second", e2.second, s2.second);
+            cover("swap(pair<NoMove,int>)");
+        }
+    }
+    #elif VF_KIND == 1
+    g_subject = "tuple<NoMove,int,NoMove>";
+    for (int a = 0; a < 3; ++a) {
+        for (int b = 0; b < 3; ++b) {
+            etl::tuple<NoMove, int, NoMove> e1(a, 10, b), e2(b, 20, a + 5);
+            std::tuple<NoMove, int, NoMove> s1(a, 10, b), s2(b, 20, a + 5);
+            crumb("swap(tuple&)", "element-swappable-only-through-its-own-swap");
+            cnt.clear();
+            s1.swap(s2);
+            int sc = cnt.swaps;
+            cnt.clear();
+            e1.swap(e2);
+            vf::eq_int("element-swap-calls", cnt.swaps, sc);
+            vf::eq_int("lhs.element0", etl::get<0>(e1).payload, std::get<0>(s1).payload);
+            vf::eq_int("lhs.element1", etl::get<1>(e1), std::get<1>(s1));
+            vf::eq_int("lhs.element2", etl::get<2>(e1).payload, std::get<2>(s1).payload);
+            vf::eq_int("rhs.element0", etl::get<0>(e2).payload, std::get<0>(s2).payload);
+            vf::eq_int("rhs.element2.marks", etl::get<2>(e2).marks, std::get<2>(s2).marks);
+            cover("tuple<NoMove,int,NoMove>.swap");
+        }
+    }
+    #elif VF_KIND == 2
+    g_subject = "pair/tuple<NoMove,...>";
+    crumb("is_swappable / noexcept(swap)", "traits");
+    auto t = []<typename N>(N*) {
+        using EP = etl::pair<N, int>;
+        using SP = std::pair<N, int>;
+        using ET = etl::tuple<N, int>;
+        using ST = std::tuple<N, int>;
+        constexpr bool em = requires(EP& a, EP& b) { a.swap(b); }, sm = requires(SP& a, SP& b) { a.swap(b); };
+        constexpr bool ef = requires(EP& a, EP& b) { swap(a, b); }, sf = requires(SP& a, SP& b) { swap(a, b); };
+        constexpr bool tm = requires(ET& a, ET& b) { a.swap(b); }, stm = requires(ST& a, ST& b) { a.swap(b); };
+        vf::eq_bool("pair.swap-well-formed", em, sm);
+        vf::eq_bool("swap(pair,pair)-well-formed", ef, sf);
+        vf::eq_bool("tuple.swap-well-formed", tm, stm);
+        vf::eq_bool("noexcept(pair.swap)", noexcept(std::declval<EP&>().swap(std::declval<EP&>())), noexcept(std::declval<SP&>().swap(std::declval<SP&>())));
+        vf::eq_bool("noexcept(tuple.swap)", noexcept(std::declval<ET&>().swap(std::declval<ET&>())), noexcept(std::declval<ST&>().swap(std::declval<ST&>())));
+    };
+    t(static_cast<NoMove*>(nullptr));
+    cover("swap traits");
+    #elif VF_KIND == 3
+    g_subject = "reference_wrapper/function_ref";
+    crumb("using etl::swap; swap(a,b)", "rebinds-not-the-targets");
+    int x = 1, y = 2;
+    auto rx = etl::ref(x), ry = etl::ref(y);
+    {
+        using etl::swap;
+        swap(rx, ry);
+    }
+    vf::eq_bool("rebinding", &rx.get() == &y && &ry.get() == &x, true);
+    vf::eq_int("targets-untouched", x * 10 + y, 12);
+    etl::function_ref<int(int)> f1(fa), f2(fb);
+    {
+        using etl::swap;
+        swap(f1, f2);
+    }
+    vf::eq_int("function_ref-lhs", f1(0), 2);
+    vf::eq_int("function_ref-rhs", f2(0), 1);
+    cover("swap(reference_wrapper/function_ref)");
     #endif
 }
 #endif
